@@ -372,11 +372,17 @@ void chacha_case(Tape &t, Ctx &c) {
 }
 
 void prop(Tape &t, Ctx &c) {
+#ifdef C12_CHACHA_ONLY
+    chacha_case(t, c);
+#else
     if (t.u8() < 150) gcm_case(t, c); else chacha_case(t, c);
+#endif
 }
 
 } // namespace
-#ifdef C12_STRICT
+#if defined(C12_CHACHA_ONLY)
+VF_TARGET("C12.chacha_ref", prop, 320, 60)
+#elif defined(C12_STRICT)
 VF_TARGET("C12.aead_strict", prop, 320, 60)
 #else
 VF_TARGET("C12.aead", prop, 320, 60)
